@@ -107,10 +107,12 @@ def operations(d):
             {'resource_class': 'DISK_GB', 'total': 5}),
         ('GET', '/resource_providers/{uuid}/inventories/{resource_class}'):
             Req('GET', '/resource_providers/%s/inventories/VCPU' % R, v),
+        # (replaces E's VCPU by two other classes: a PUT that also drops a
+        # class the provider has)
         ('PUT', '/resource_providers/{uuid}/inventories'): Req(
             'PUT', '/resource_providers/%s/inventories' % E, v,
             {'resource_provider_generation': g[E],
-             'inventories': {'VCPU': {'total': 8},
+             'inventories': {'DISK_GB': {'total': 8},
                              'MEMORY_MB': {'total': 64}}}),
         ('PUT', '/resource_providers/{uuid}/inventories/{resource_class}'):
             Req('PUT', '/resource_providers/%s/inventories/VCPU' % E, v,
